@@ -193,6 +193,28 @@ def colexpr_part(stats, vs):
                         stats["traces_validated"] += 1
                     except Exception as ex_:  # noqa: BLE001
                         vs.append(mkv(b, "colexpr-export", label, f"exception:{X.exc_label(ex_)}", {"message": str(ex_)[:300]}))
+            # expressions that mix references of the source table and of a derived table: they
+            # have to be evaluated on the derived table (filter / order / slice applied)
+            t0 = built.tables["T"]
+            with warnings.catch_warnings():
+                warnings.simplefilter("ignore")
+                t2 = t0 >> pdt.filter(t0.k > 1) >> pdt.arrange(t0.k.descending()) >> pdt.slice_head(2) if b == "polars" else \
+                    t0 >> pdt.filter(t0.k > 1) >> pdt.arrange(t0.k.descending())
+                t3 = t2 >> pdt.mutate(z=t0.x * 2)
+                mixed = [("T.x + t2.g", lambda: t0.x + t2.g, t2), ("t2.g + T.x", lambda: t2.g + t0.x, t2), ("T.x (through t2.k)", lambda: t0.x + t2.k * 0, t2),
+                         ("T.x.sum() + t2.k", lambda: t0.x.sum() + t2.k, t2), ("T.k + t3.z", lambda: t0.k + t3.z, t3), ("t3.z", lambda: t3.z, t3),
+                         ("when(T.x > 2).then(t2.g)", lambda: pdt.when(t0.x > 2).then(t2.g).otherwise(t0.k), t2)]
+                for label, f, tbl in mixed:
+                    stats["states"] += 1
+                    stats["transitions"] += 1
+                    try:
+                        ser = f().export(pdt.Polars())
+                        ref = (tbl >> pdt.mutate(c__=f()) >> pdt.select("c__") >> pdt.export(pdt.Polars())).get_column("c__")
+                        if not C.rows_eq([(C.norm_cell(v),) for v in ser.to_list()], [(C.norm_cell(v),) for v in ref.to_list()], ordered=(b == "polars")):
+                            vs.append(mkv(b, "colexpr-export:derived-table", label, "differs", {"series": str(ser.to_list()), "pipeline": str(ref.to_list())}))
+                        stats["traces_validated"] += 1
+                    except Exception as ex_:  # noqa: BLE001
+                        vs.append(mkv(b, "colexpr-export:derived-table", label, f"exception:{X.exc_label(ex_)}", {"message": str(ex_)[:300]}))
         finally:
             built.close()
 
@@ -246,7 +268,7 @@ def describe(tier):
         "input_family": "3 tables: 4 rows with nulls, empty, a single row of nulls (+ R for the join)",
         "targets": ["Polars()", "Polars(lazy=True).collect()", "Pandas()", "DictOfLists", "ListOfDicts", "Dict", "Scalar", "Table(exported frame) >> export"],
         "backends": {"polars": "all targets", "sqlite": "Polars(), DictOfLists, ListOfDicts, Dict, Scalar"},
-        "colexpr_export": "16 expressions (columns, arithmetic, case, cast, aggregates, window functions) via ColExpr.export(Polars / Pandas) vs mutate >> select >> export",
+        "colexpr_export": "16 expressions (columns, arithmetic, case, cast, aggregates, window functions) via ColExpr.export(Polars / Pandas) vs mutate >> select >> export; 7 expressions mixing references of the source and of a derived (filtered / arranged / sliced) table",
         "oracle": "invariant: every target has the same names, order and values as Polars() (and the reference model agrees with Polars()); Dict / Scalar raise TypeError exactly when the shape does not fit; re-import reproduces data and dtypes",
         "regime": "tree",
         "assumptions": ["engines trusted", "reference model (for the Polars() frame itself)"],
